@@ -99,6 +99,14 @@ def run(ctx):
     rng = ctx.rng
     n = 120 if ctx.quick() else 3000
     cases = []
+    from harness import corr_world as _cw
+    for c in _cw.corpus_cases(PROP, kind="bytecode"):
+        roots = [tuple(x for x in r.split("/") if x) for r in c["roots"]]
+        cases.append((c["tree"], roots, c["keep"], c["usecompiled"], [], False))
+    # directed: every way a compiled file can sit next to (or without) its source in one directory listing
+    for names in (["a.py", "a.pyc", "a.pyo"], ["a.py", "a.py,cover", "a.pyc"], ["a.py", "a.py.orig", "a.pyo", "b.pyc"],
+                  ["b.pyc", "b.pyo"], ["a.py", "a.pyc", "a.pyc.bak", "c.pyo"]):
+        cases.append(({"files": names, "subs": [["sub", {"files": list(reversed(names)), "subs": []}]]}, [()], False, False, [], False))
     for i in range(n):
         tree = gen_tree(rng, rng.choice([1, 2, 3, 4]))
         dirs = list(all_dirs(tree))
